@@ -183,6 +183,60 @@ def main():
     ck.traces += len(states)
     ck.sample({"kind": "fixhom-state", "hom_over_1024": states[len(states) // 2]["hom"], "T": states[len(states) // 2]["T"], "mask": states[len(states) // 2]["mask"]})
 
+    # ---------------- SnvPosterior: the thresholded quantity itself --------------
+    from fractions import Fraction
+    from vlib.compare import close_prob
+    try:
+        rs = tlc.run(SPEC, "SnvPosterior", "Snv_quick.cfg" if quick else "Snv_thorough.cfg", timeout=1800)
+    except tlc.TLCError as e:
+        ck.machinery_failure(str(e))
+    ck.add_tlc(rs, "SnvPosterior")
+    if rs.violated:
+        ck.violation("model", {"cfg": "SnvPosterior", "invariant": rs.violated, "text": rs.error_text[:800]}, key={"model": "SnvPosterior"})
+    inst = rs.printed
+    for st in inst:
+        J = []
+        for row in st["table"]:
+            v = Fraction(row["w"])
+            for s_, c_ in row["f"]:
+                v *= Fraction(s_) ** c_
+            J.append(v)
+        tot = sum(J)
+        hom = {}
+        for row, v in zip(st["table"], J):
+            if len(set(row["g"])) == 1:
+                hom[row["g"][0]] = v / tot
+        st["exact_hom"] = [hom[a] for a in range(st["n"])]
+        pmax = max(st["exact_hom"])
+        st["thresholds"] = [float(pmax) * (1 + 1e-6), float(pmax) * (1 - 1e-6)] if pmax > Fraction(11, 20) and float(pmax) * (1 + 1e-6) < 1 else []
+    slim = [{k: st[k] for k in ("P", "n", "F", "reads", "thresholds")} for st in inst]
+    chunks = [list(range(i, min(i + 300, len(slim)))) for i in range(0, len(slim), 300)]
+    res = pool.map_tasks("impl.c15", [{"op": "snvpost", "states": [slim[i] for i in c]} for c in chunks], mode="jit")
+    ndec = 0
+    for c, rr in zip(chunks, res):
+        if not rr["ok"]:
+            ck.violation("snvpost-error", {"error": rr["error"], "tb": rr.get("tb", "")[-400:]}, key={"site": "_homozygosity_probabilities"})
+            continue
+        for i, o in zip(c, rr["result"]):
+            st = inst[i]
+            ck.evaluations += 1
+            if any(not close_prob(x, q) for x, q in zip(o["hom"], st["exact_hom"])):
+                ck.violation("snv-posterior", {"P": st["P"], "n": st["n"], "F": st["F"], "reads": st["reads"], "impl": o["hom"],
+                                               "model": [str(q) for q in st["exact_hom"]]}, key={"site": "_homozygosity_probabilities"})
+            am = max(range(st["n"]), key=lambda a: st["exact_hom"][a])
+            for d, want_sampled in zip(o["decisions"], (True, False)):
+                ndec += 1
+                if d["sampled"] != want_sampled or (not want_sampled and d["allele"] != am):
+                    ck.violation("fix-decision", {"P": st["P"], "n": st["n"], "F": st["F"], "reads": st["reads"], "threshold": d["thr"],
+                                                  "exact_hom": [str(q) for q in st["exact_hom"]], "impl_sampled": d["sampled"], "impl_allele": d["allele"]},
+                                 key={"site": "DenovoMCMC._mcmc", "clause": "FixedIffThreshold"})
+    ck.traces += len(inst)
+    ck.nontrivial += ndec // 2
+    ck.note("snv_posterior_instances", len(inst))
+    ck.note("fix_decisions_checked", ndec)
+    ck.sample({"kind": "snv-posterior-instance", "P": inst[-1]["P"], "n": inst[-1]["n"], "F": inst[-1]["F"], "reads": inst[-1]["reads"],
+               "exact_hom": [str(q) for q in inst[-1]["exact_hom"]]})
+
     # ---------------- code -> spec: recorded fits ---------------------------
     ft = []
     k = 0
